@@ -1,2 +1,4 @@
 pub mod sink;
 pub mod floatsite;
+pub mod peer;
+pub mod pipe;
